@@ -57,6 +57,9 @@ pub async fn run_swarm_worker(
     // Periodically clean torrents
     TimerActionRepeat::repeat(enclose!((config, torrents, access_list) move || {
         enclose!((config, torrents, access_list) move || async move {
+            #[cfg(feature = "verif-hooks")]
+            let _ = aquatic_common::verif_hooks::fault_point("swarm-clean");
+
             torrents.borrow_mut().clean(&config, &access_list, server_start_instant);
 
             Some(Duration::from_secs(config.cleaning.torrent_cleaning_interval))
@@ -149,6 +152,9 @@ async fn handle_request_stream<S>(
         .for_each_concurrent(
             SHARED_IN_CHANNEL_SIZE,
             move |(meta, in_message)| async move {
+                #[cfg(feature = "verif-hooks")]
+                let _ = aquatic_common::verif_hooks::fault_point("swarm");
+
                 let mut out_messages = Vec::new();
 
                 match in_message {
